@@ -391,8 +391,8 @@ PROP = Property(
                              "step-only segment", "stop at float-inexact offset",
                              "illegal stop refused", "until-event already processed", "until-event never triggered"]),
             Facet("twice", prog_strategy, run_twice, quick=300, thorough=2000),
-            Facet("net_split", _net_split_strategy, _run_net_split, quick=250, thorough=2000,
-                  essential=["network scenario split"])],
+            Facet("net_split", _net_split_strategy, _run_net_split, quick=600, thorough=3000,
+                  essential=["network scenario split", "scenario with monitors"])],
     assumptions=["a failed until-event may be raised or returned (statement silent)",
                  "other interpreters = fresh processes of the one CPython present, PYTHONHASHSEED varied"],
     extra=hashseed_batch,
